@@ -1110,8 +1110,8 @@ class TT():
                     cores.append(self.cores[i])
 
             S = TT(cores)
-            S.reduce_dims()
-            if len(S.cores) == 1 and tn.numel(S.cores[0]) == 1:
+            S.reduce_dims([i for i in range(len(self.__N)) if i not in index])
+            if len(S.cores) == 1 and tn.numel(S.cores[0]) == 1 and all(i in index for i in range(len(self.__N))):
                 S = tn.squeeze(S.cores[0])
         return S
 
